@@ -223,9 +223,15 @@ class Request(HTTPConnection):
             boundary = self.content_type.options["boundary"].encode("latin-1")
             return await self._parse_multipart(boundary, charset)
         if self.content_type == "application/x-www-form-urlencoded":
-            body = (await self.body).decode(
-                encoding=self.content_type.options.get("charset", "latin-1")
-            )
+            data = await self.body
+            try:
+                body = data.decode(
+                    encoding=self.content_type.options.get("charset", "latin-1")
+                )
+            except (ValueError, LookupError) as exc:
+                # bytes that are not text in the declared charset, or a charset
+                # parameter that names no text encoding
+                raise HTTPException(400, content=f"Malformed form: {exc}") from None
             return FormData(parse_qsl(body, keep_blank_values=True))
 
         raise UnsupportedMediaType(
